@@ -184,7 +184,12 @@ func c19run(c *evid.Ctx, r *gen.Rand, run int) {
 		}
 	}
 	// ---- inbound from blocked sources ----
-	for _, x := range X {
+	// Start with the source the node heard from last before the block (a per-source verdict cached
+	// across the list change would show here), then the others in PRNG order.
+	inOrder := append([]*net.UDPAddr(nil), X...)
+	gen.Shuffle(r, inOrder[:len(inOrder)-1])
+	inOrder[0], inOrder[len(inOrder)-1] = inOrder[len(inOrder)-1], inOrder[0]
+	for _, x := range inOrder {
 		src := &net.UDPAddr{IP: x.IP, Port: x.Port}
 		tok := tokens[x.String()]
 		msgs := [][]byte{
